@@ -29,3 +29,26 @@ func VerifReadHeaderNoPanic() {
 	}
 	vnd.Cover(err != nil, "header rejected")
 }
+
+// VerifReadHeaderBoxSizes: the same minimal file, with an arbitrary size field in the moov box header
+// (smaller than its header, smaller than the mvhd box, larger than the file) and a file that may be cut short.
+func VerifReadHeaderBoxSizes() {
+	mvhd := make([]byte, 100)
+	mvhd[15] = 1 // time scale 1
+	mvhd[20], mvhd[21] = 0, 1
+	mvhd[24] = 1
+	var file []byte
+	file = append(file, 0, 0, 0, 8, 'f', 't', 'y', 'p')
+	file = append(file, vnd.Bytes("moovSize", 4)...)
+	file = append(file, 'm', 'o', 'o', 'v')
+	file = append(file, 0, 0, 0, 108, 'm', 'v', 'h', 'd')
+	file = append(file, mvhd...)
+	cuts := []int{len(file), 16, 20, 24, 60}
+	file = file[:cuts[vnd.Choose("cut", len(cuts))]]
+	init, _, err := segmentFMP4ReadHeader(bytes.NewReader(file))
+	if err == nil {
+		vnd.Assert(init != nil, "a parsed header comes with its init")
+	}
+	vnd.Cover(err != nil, "header rejected")
+	vnd.Cover(err == nil, "header accepted")
+}
